@@ -196,6 +196,14 @@ class ScriptedApp:
                 err = await self._send(inst, send, op[1])
                 if err is not None and not (len(op) > 2 and op[2] == "tolerate"):
                     raise err
+            elif name == "universal":
+                # serve whatever arrives: echo HTTP bodies, accept and echo WebSockets
+                if inst.scope.get("type") == "websocket":
+                    sub = [["recv"], ["send", {"type": "websocket.accept"}, "tolerate"],
+                           ["ws_loop", {"echo": True, "tolerate": True}]]
+                else:
+                    sub = [["echo"]]
+                await self._run(inst, sub, receive, send)
             elif name == "echo":
                 # answer with what was received: "<path>|<body>"
                 while not inst.body_done and not inst.disconnected:
